@@ -127,11 +127,7 @@ impl RegexMatcher {
         }
         // Report errors against the pattern as given (but for the spelling of
         // the operators the engine would not take for what they are).
-        Regex::with_options(
-            &spell_basic_operators(pattern, regex_type),
-            options,
-            &syntax,
-        )?;
+        Regex::with_options(&spelled(pattern, regex_type), options, &syntax)?;
         check_intervals(pattern, regex_type)?;
         check_back_references(pattern, regex_type)?;
         check_classes(pattern, regex_type)?;
@@ -464,6 +460,68 @@ fn after_bracket(s: &str, regex_type: RegexType) -> &str {
     }
 }
 
+/// The pattern with every collating symbol "[.x.]" and equivalence class
+/// "[=x=]" of a bracket expression written as the character it names; the
+/// engine has neither construct.  (One that names a character with a meaning
+/// of its own there is left as it is.)
+fn spell_collating(pattern: &str, regex_type: RegexType) -> String {
+    let classes = !matches!(regex_type, RegexType::Emacs);
+    let mut result = String::with_capacity(pattern.len());
+    let mut chars = pattern.chars().peekable();
+    while let Some(ch) = chars.next() {
+        result.push(ch);
+        match ch {
+            '\\' => result.extend(chars.next()),
+            '[' => {
+                // A ']' directly after "[" or "[^" is a member, and "[:class:]"
+                // ends with its own ']'.
+                if chars.peek() == Some(&'^') {
+                    result.extend(chars.next());
+                }
+                if chars.peek() == Some(&']') {
+                    result.extend(chars.next());
+                }
+                while let Some(member) = chars.next() {
+                    result.push(member);
+                    if member == ']' {
+                        break;
+                    }
+                    if member != '[' {
+                        continue;
+                    }
+                    let mut ahead = chars.clone();
+                    let named = [ahead.next(), ahead.next(), ahead.next(), ahead.next()];
+                    if let [Some(delim @ ('.' | '=')), Some(only), Some(end), Some(']')] = named {
+                        if end == delim && !matches!(only, ']' | '^' | '-' | '[' | '\\' | ':') {
+                            result.pop();
+                            result.push(only);
+                            chars = ahead;
+                            continue;
+                        }
+                    }
+                    if classes && chars.peek() == Some(&':') {
+                        for class_char in chars.by_ref() {
+                            result.push(class_char);
+                            if class_char == ']' {
+                                break;
+                            }
+                        }
+                    }
+                }
+            }
+            _ => {}
+        }
+    }
+    result
+}
+
+/// The pattern with what the engine reads differently written the way it
+/// reads it (collating symbols, the operators of grep and posix-basic): what
+/// is compiled first, to report errors against the pattern as given.
+fn spelled(pattern: &str, regex_type: RegexType) -> String {
+    spell_basic_operators(&spell_collating(pattern, regex_type), regex_type)
+}
+
 /// The pattern as it has to be written inside the group it is wrapped in:
 /// that group is the first one, so every back-reference names the group after
 /// the one it says; and in a POSIX extended regular expression a ')' without
@@ -476,7 +534,7 @@ fn inside_group(pattern: &str, regex_type: RegexType) -> String {
     let extended = matches!(regex_type, RegexType::PosixExtended);
     let classes = !matches!(regex_type, RegexType::Emacs);
     let newline_alt = matches!(regex_type, RegexType::Grep);
-    let pattern = &spell_basic_operators(pattern, regex_type);
+    let pattern = &spelled(pattern, regex_type);
     let mut result = String::with_capacity(pattern.len());
     let mut depth = 0usize;
     let mut chars = pattern.chars().peekable();
@@ -511,22 +569,6 @@ fn inside_group(pattern: &str, regex_type: RegexType) -> String {
                     result.push(member);
                     if member == ']' {
                         break;
-                    }
-                    if member == '[' {
-                        // A collating symbol "[.x.]" or an equivalence class
-                        // "[=x=]" stands for the character it names; the engine
-                        // has neither construct.  (One that names a character
-                        // with a meaning of its own here is left as it is.)
-                        let mut ahead = chars.clone();
-                        let named = [ahead.next(), ahead.next(), ahead.next(), ahead.next()];
-                        if let [Some(delim @ ('.' | '=')), Some(only), Some(end), Some(']')] = named {
-                            if end == delim && !matches!(only, ']' | '^' | '-' | '[' | '\\' | ':') {
-                                result.pop();
-                                result.push(only);
-                                chars = ahead;
-                                continue;
-                            }
-                        }
                     }
                     if classes && member == '[' && chars.peek() == Some(&':') {
                         let mut class = String::new();
